@@ -300,7 +300,7 @@ def h_retransmit(scenario, copies):
     return ['retransmit', len(c.ctl.ike_sas)]
 
 
-def h_timeout(kind):
+def h_timeout(kind, n_children=1):
     """an IKE_SA of the table ends through the retransmission timeout INSIDE the real main_loop (unanswered DPD probe); afterwards an authentic datagram
     with its SPIs (the peer's own probe / arbitrary header fields) is a datagram for an unknown SPI: dropped, nothing changes, nothing raised"""
     from symx import core
@@ -312,6 +312,13 @@ def h_timeout(kind):
     c.handshake(other, upto=4)
     e = ep.entry
     a = ep.obj
+    TS = MODS['message'].TrafficSelector
+    from ipaddress import ip_network
+    for i in range(n_children - 1):
+        q = ep.call(a.process_acquire, TS.from_network(ip_network('192.168.0.1/32'), 9100 + i, TS.IpProtocol.TCP), TS.from_network(ip_network('192.168.0.2/32'), 23, TS.IpProtocol.TCP), 1)
+        ep.call(a.process_message, c.dispatch(q))
+    if len(e.child_sas) != n_children:
+        return {'class': ['timeout'], 'violation': f'set-up: {len(e.child_sas)} CHILD_SAs instead of {n_children}'}
     # the peer's own probe reaches the controller first (every IKE_SA has been looked up by SPI at least once) ...
     world.ENV.now = a.start_dpd_at + 3600
     probe = bytes(ep.call(a.check_dead_peer_detection_timer))
@@ -357,6 +364,9 @@ def build_instances(tier):
     nat = common.native_of
     inst.append(Instance('late datagram after a retransmission timeout in main_loop', h_timeout, ('probe',), native=nat(h_timeout),
                          must_reach=[('dropped', lambda o: o == ['timeout', 'dropped'])]))
+    for k in (2, 3):
+        inst.append(Instance(f'retransmission timeout in main_loop of an IKE_SA with {k} CHILD_SAs', h_timeout, ('probe', k), native=nat(h_timeout),
+                             must_reach=[('dropped', lambda o: o == ['timeout', 'dropped'])]))
     for layout, kinds in LAYOUTS.items():
         for idx in range(len(kinds)):
             for kind in ('dpd', 'last', 'init_req', 'del_ike'):
